@@ -301,6 +301,10 @@ _PARTIAL_OWNERS = {"remove": ("Vec", "VecDeque", "String"), "insert": ("Vec", "V
                    "split_off": ("Vec", "VecDeque", "String"), "swap_remove": ("Vec",), "windows": ("[T]",), "step_by": ("Iterator",)}
 
 
+_NONZERO_ARG = ("div_euclid", "rem_euclid", "div_ceil", "div_floor", "next_multiple_of", "chunks", "chunks_exact", "chunks_mut",
+                "chunks_exact_mut", "windows", "step_by")
+
+
 def partial_calls(crate, fns):
     """calls of std functions that panic for some argument values (PARTIAL_STD), resolved callees only"""
     out = []
@@ -317,8 +321,37 @@ def partial_calls(crate, fns):
             own = _PARTIAL_OWNERS.get(name)
             if own and not any(o in c for o in own):
                 continue
+            if name in _NONZERO_ARG:
+                # total when the divisor / chunk length / step is a non-zero literal (named constants are literals
+                # after the normal form)
+                a_ = (n.get("args") or [None])[-1]
+                v_ = H.lit_val(hq.peel(a_)) if a_ is not None else None
+                if isinstance(v_, int) and not isinstance(v_, bool) and v_ != 0:
+                    continue
             out.append({"fn": p, "kind": "partial:" + name, "line": n["sp"][2], "file": b["file"], "text": H.show(n)[:100],
                         "why": PARTIAL_STD[name]})
+    return out
+
+
+NARROW_TYPES = ("u8", "u16", "i8", "i16")
+
+
+def narrow_arith(crate, fns):
+    """additions, subtractions, multiplications and left shifts computed in an 8- or 16-bit integer type: the sites
+    where a plausible-looking product or sum stops fitting (debug builds panic, release builds wrap silently)"""
+    out = []
+    for p, b in top_fns(crate, fns):
+        def rec(n, in_dbg):
+            mac = n.get("mac")
+            if mac and mac.split(">")[0].startswith("debug_assert"):
+                in_dbg = True
+            if not in_dbg and n.get("k") in ("Binary", "AssignOp") and n.get("op", "").rstrip("=") in ("+", "-", "*", "<<") and n.get("op") not in ("<=", "=="):
+                ty = n.get("ty") if n["k"] == "Binary" else hq.peel(n["l"]).get("ty")
+                if ty in NARROW_TYPES and not (n["k"] == "Binary" and H.lit_val(n) is not None):
+                    out.append({"fn": p, "kind": "narrow:" + ty, "line": n["sp"][2], "file": b["file"], "text": H.show(n)[:100]})
+            for _, ch in H.children(n):
+                rec(ch, in_dbg)
+        rec(b["body"], False)
     return out
 
 
